@@ -148,6 +148,7 @@ func (e *Engine) sigID(name, sym string) int {
 func init() {
 	reg := func(name string, f intrinsic) { intrinsics[rtPkg+name] = f }
 
+	reg("EngineOnly", func(e *Engine, fn *ssa.Function, a []Value) Value { return nil })
 	reg("Thorough", func(e *Engine, fn *ssa.Function, a []Value) Value { return e.ts.Bool(e.cfg.Thorough) })
 	reg("Symbolic", func(e *Engine, fn *ssa.Function, a []Value) Value { return e.ts.True })
 	reg("Bytes", func(e *Engine, fn *ssa.Function, a []Value) Value {
@@ -530,6 +531,25 @@ func init() {
 			e.callValue(a[1], nil, nil)
 		}
 		return Tuple(nil)
+	}
+	intrinsics["maps.clone"] = func(e *Engine, fn *ssa.Function, a []Value) Value {
+		in := a[0].(Iface)
+		m, _ := in.V.(*Map)
+		if m == nil {
+			return in
+		}
+		c := &Map{KeyT: m.KeyT}
+		for _, en := range m.Entries {
+			if !en.Deleted {
+				c.Entries = append(c.Entries, &mapEntry{K: copyVal(en.K), V: copyVal(en.V)})
+			}
+		}
+		return Iface{T: in.T, V: c}
+	}
+	// protobuf enum names go through descriptor reflection: an opaque string is enough for
+	// everything the harnesses observe (names of enum values are never asserted on)
+	intrinsics["(google.golang.org/protobuf/internal/impl.Export).EnumStringOf"] = func(e *Engine, fn *ssa.Function, a []Value) Value {
+		return Str{S: "<enum>", Conc: true}
 	}
 	intrinsics["runtime.KeepAlive"] = func(e *Engine, fn *ssa.Function, a []Value) Value { return Tuple(nil) }
 	intrinsics["internal/godebug.New"] = nil
